@@ -202,6 +202,27 @@ func NewEnv(vfs avfs.VFS) *Env { return &Env{FS: vfs, Files: map[int]avfs.File{}
 // DeadlockPanic is the value the sequential lock hook panics with when a lock cannot be acquired.
 type DeadlockPanic struct{ What string }
 
+// LockEvents counts lock-hook events (sequential mode); callStart is its value when the current call began.
+// A call that passes more than RunawayBudget lock sites on trees of a few dozen nodes does not terminate: a logical
+// verdict ("runaway"), no timer involved.
+var (
+	LockEvents    int64
+	callStart     int64
+	RunawayBudget int64 = 1_000_000
+)
+
+// RunawayPanic is raised by the sequential hook when the budget of the current call is exhausted.
+type RunawayPanic struct{}
+
+// CheckRunaway is called by the sequential lock hook.
+func CheckRunaway() {
+	LockEvents++
+	if LockEvents-callStart > RunawayBudget {
+		callStart = LockEvents
+		panic(RunawayPanic{})
+	}
+}
+
 func modeStr(m fs.FileMode) string {
 	t := "f"
 	switch {
@@ -273,9 +294,14 @@ func (e *Env) Exec(o Op) (r Res) {
 				r = Res{Err: "deadlock", Raw: d.What}
 				return
 			}
+			if _, ok := p.(RunawayPanic); ok {
+				r = Res{Err: "deadlock", Raw: "runaway: the call passed more than 1e6 lock sites without returning"}
+				return
+			}
 			r = Res{Err: "panic", Raw: fmt.Sprint(p)}
 		}
 	}()
+	callStart = LockEvents
 	return e.exec(o)
 }
 
